@@ -160,6 +160,13 @@ def stepMocSetFile (toks : List String) : Option String :=
     | some (some f) => pure (showFile f)
     | some none => pure "nofile"
     | none => none
+  | ["msfc", n128, hist, st, ids, k] => do
+    -- a `chgstatus st ids` killed after `k` of its stores, on the file the history gives
+    let n128 ← n128.toNat?; let st ← st.toNat?; let k ← k.toNat?
+    let ids ← (ids.splitOn ",").mapM (·.toNat?)
+    match msfRun n128 (hist.splitOn "|") with
+    | some (some f) => pure (showFile (fileChgPrefix f st ids k))
+    | _ => none
   | ["msfk", n128, hist, point] => do
     -- an `append` (last command of the history) killed at a named point: the stores already performed
     let n128 ← n128.toNat?
